@@ -60,6 +60,72 @@ def _is_hidden(f):
     return isinstance(f.name, HiddenName)
 
 
+class _NeedMore(BaseException):
+    def __init__(self, n):
+        self.n = n
+
+
+class _Cut(BaseException):
+    pass
+
+
+def _drawtree(built, case, max_leaves):
+    """Explore every sequence of random.randrange results for the FIRST candidate of RandomGen.sample(block, 1).
+    The real sampler is run once per path with a scripted source; a second call of generate_random_samples means
+    the first candidate was rejected."""
+    import random as _random
+    import ir
+    import sweetpea as sp
+    from sweetpea._internal.sampling_strategy import random as rg
+    leaves = []
+    truncated = False
+    orig_rr = _random.randrange
+    orig_gen = rg.UCSolutionEnumerator.generate_random_samples
+    state = {}
+
+    def rr(a, b=None):
+        lo, hi = (0, a) if b is None else (a, b)
+        n = hi - lo
+        if state["pos"] < len(state["prefix"]):
+            v = state["prefix"][state["pos"]]
+        else:
+            raise _NeedMore(n)
+        state["pos"] += 1
+        state["log"].append([n, v])
+        return lo + v
+
+    def gen(self, *a, **k):
+        state["calls"] += 1
+        if state["calls"] > 1:
+            raise _Cut()
+        return orig_gen(self, *a, **k)
+
+    _random.randrange = rr
+    rg.UCSolutionEnumerator.generate_random_samples = gen
+    try:
+        stack = [[]]
+        while stack:
+            prefix = stack.pop()
+            if len(leaves) >= max_leaves:
+                truncated = True
+                break
+            state.update(prefix=prefix, pos=0, log=[], calls=0)
+            try:
+                with ir.quiet():
+                    res = sp.RandomGen.sample(built.block, 1)
+                seq = ir.encode_experiment(case, built.block.add_implied_levels(dict(res.samples[0])))["s"] if res.samples else []
+                leaves.append({"draws": list(state["log"]), "acc": bool(res.samples), "seq": seq})
+            except _NeedMore as e:
+                for v in range(e.n - 1, -1, -1):
+                    stack.append(prefix + [v])
+            except _Cut:
+                leaves.append({"draws": list(state["log"]), "acc": False, "seq": []})
+    finally:
+        _random.randrange = orig_rr
+        rg.UCSolutionEnumerator.generate_random_samples = orig_gen
+    return {"leaves": leaves, "truncated": truncated}
+
+
 class _Emitting(list):
     def __init__(self, emit):
         super().__init__()
@@ -144,6 +210,10 @@ def exec_ops(case, ops, op_timeout=60, emit=None):
                     signal.alarm(0)
                     rec["status"] = "returned"
                     rec["mismatch"] = {k: [str(x) for x in v] for k, v in r.items()}
+                elif kind == "drawtree":
+                    rec.update(_drawtree(built, case, op.get("max_leaves", 4000)))
+                    signal.alarm(0)
+                    rec["status"] = "returned"
                 elif kind == "mismatch_many":
                     res = []
                     for rows in op["rows_list"]:
